@@ -49,6 +49,54 @@ def run(ctx):
     ctx.attempt(_r9)
     ctx.attempt(_r10)
     ctx.attempt(_r11)
+    ctx.attempt(_r12)
+
+
+def class_selections(fn_node, ret_expr):
+    """boolean-mask selections `<x>[<comparison>]` in the (temporaries expanded) returned expression that are NOT the operand of
+    a max / min reduction: the sum or average of the solidity then runs over a selection of the classes"""
+    from ..astutil import inline_single_defs
+    from ..frontend import set_parents
+    full = set_parents(ast.parse(norm_text(inline_single_defs(fn_node, ret_expr)), mode="eval")).body
+    masks = {st.targets[0].id for st in ast.walk(fn_node) if isinstance(st, ast.Assign) and len(st.targets) == 1 and
+             isinstance(st.targets[0], ast.Name) and any(isinstance(c, ast.Compare) for c in ast.walk(st.value))}
+    out = []
+    for n in ast.walk(full):
+        if not isinstance(n, ast.Subscript):
+            continue
+        sl = n.slice
+        if not (any(isinstance(c, ast.Compare) for c in ast.walk(sl)) or isinstance(sl, ast.Name) and sl.id in masks):
+            continue
+        par = getattr(n, "_parent", None)
+        if isinstance(par, ast.Attribute) and par.attr in ("max", "min") or \
+                isinstance(par, ast.Call) and (call_name(par) or "") in ("np.max", "np.min", "np.amax", "np.amin", "max", "min"):
+            continue
+        out.append(n)
+    return out
+
+
+def _r12(ctx):
+    """R-C11-12: the solidity is an average over ALL classes of the collective, weighted with their cycles - the same classes the
+    damage sum runs over.  The only class selection in solidity.haibach is the one that finds the largest occupied amplitude;
+    a mask on the summands (`xi[xi > 0]`, `hi[loaded]`) drops the cycles of the masked classes from the collective size, and the
+    Gassner cycles of the elementary rule no longer give damage one for a collective with an occupied zero-amplitude class."""
+    prog = ctx.prog
+    ctx.rule("R-C11-12", floor=1, what="the solidity sums over all classes (no mask on the summands)")
+    f = prog.func("pylife.strength.solidity:haibach")
+    rets = [st for st in walk_function(f.node) if isinstance(st, ast.Return) and st.value is not None]
+    if len(rets) != 1:
+        raise AnalysisError("solidity.haibach: expected one return")
+    hits = class_selections(f.node, rets[0].value)
+    ex = ast.parse("def f(c, k):\n    hi = c.cycles\n    xi = c.amplitude / c.amplitude[hi > 0].max()\n    loaded = xi > 0\n"
+                   "    return np.average(xi[loaded] ** k, weights=hi[loaded])\n").body[0]
+    if len(class_selections(ex, ex.body[-1].value)) < 2:
+        raise AnalysisError("R-C11-12 built-in example not matched")
+    if hits:
+        ctx.violated(f, rets[0], "solidity.haibach sums over a selection of the classes (%s): the cycles of the other classes are "
+                     "missing from the collective size, the solidity - and with it the elementary lifetime multiple - is too large"
+                     % ", ".join(sorted({norm_text(h)[:40] for h in hits})), text="class selection in the solidity sum")
+    else:
+        ctx.holds(f, rets[0], "no mask on the summands of the solidity (the largest-amplitude selection apart)")
 
 
 def _r11(ctx):
@@ -706,6 +754,20 @@ FP = "src/pylife/strength/fatigue.py"
 
 def variants():
     out = []
+
+    def solidity_loaded_only(tree):
+        f = find_func(tree, "haibach")
+        i = next(k for k, st in enumerate(f.body) if isinstance(st, ast.Assign) and norm_text(st.targets[0]) == "V")
+        f.body[i:i + 1] = [parse_stmt("loaded = xi > 0"), parse_stmt("V = np.average(xi[loaded] ** k, weights=hi[loaded])")]
+        return True
+    out.append(witness("solidity averaged over the loaded classes only", SP, solidity_loaded_only, "R-C11-12"))
+
+    def solidity_average(tree):
+        f = find_func(tree, "haibach")
+        i = next(k for k, st in enumerate(f.body) if isinstance(st, ast.Assign) and norm_text(st.targets[0]) == "V")
+        f.body[i] = parse_stmt("V = np.sum(hi * xi ** k) / hi.sum()")
+        return True
+    out.append(twin("solidity written as sum(hi xi^k) / sum(hi)", SP, solidity_average))
 
     def reference_as_given(tree):
         f = find_func(tree, "MinerBase.gassner_cycles")
